@@ -261,7 +261,7 @@ Lemma loop_closed : Closed loop_h.
 Proof. apply closedb_sound. vm_compute. reflexivity. Qed.
 
 Theorem loop_refused oracle :
-  exists h', cJSON_Duplicate oracle (Some 1%positive) true loop_h = Ret (None, h') /\ Frame [] [] loop_h h'.
+  exists h', cJSON_Duplicate oracle (Some 1%positive) true loop_h = Ret (None, h') /\ Ext [] [] loop_h h'.
 Proof.
   destruct (dup_limit oracle loop_h _ 1%positive loop_closed loop_walkable eq_refl) as (r & h' & Hrun & H1 & H2 & _).
   rewrite (H1 (loop_deep _)) in *. exists h'. split; [done|]. by apply H2.
@@ -305,7 +305,7 @@ Lemma cyc2_closed : Closed cyc2_h.
 Proof. apply closedb_sound. vm_compute. reflexivity. Qed.
 
 Theorem cyc2_refused oracle :
-  exists h', cJSON_Duplicate oracle (Some 1%positive) true cyc2_h = Ret (None, h') /\ Frame [] [] cyc2_h h'.
+  exists h', cJSON_Duplicate oracle (Some 1%positive) true cyc2_h = Ret (None, h') /\ Ext [] [] cyc2_h h'.
 Proof.
   destruct (dup_limit oracle cyc2_h _ 1%positive cyc2_closed cyc2_walkable (or_introl eq_refl))
     as (r & h' & Hrun & H1 & H2 & _).
